@@ -201,11 +201,27 @@ def sql_unmapped(case):
     return False
 
 
+def _sql_mapped_only(case):
+    """the case restricted to the columns whose type has a SQL mapping (P29 concerns the others)"""
+    keep = [i for i, (n, p) in enumerate(case["params"]) if not sql_unmapped({"params": [[n, p]]})]
+    return dict(case, params=[case["params"][i] for i in keep], kinds=[case["kinds"][i] for i in keep])
+
+
 def oracle(case):
     r = Result()
-    x = gen_ir.to_ir(case)
+    full_case, full_x = case, gen_ir.to_ir(case)
     normalised = False
     for fmt in case.get("formats") or FORMATS:
+        case, x = full_case, full_x
+        if fmt.startswith("sqlalchemy") and sql_unmapped(case) and is_open("P29"):
+            # P29: a column of unmapped type yields a param entry with the key None that drifts every round.  The
+            # finding concerns THOSE columns: the fixpoint of the remaining ones is still checked (projection)
+            r.covered("P29")
+            case = _sql_mapped_only(full_case)
+            if not case["params"]:
+                continue
+            x = gen_ir.to_ir(case)
+            r.label("sqlalchemy-on-mapped-columns-only")
         taints, seen_default = {}, False
         for n, p in case["params"]:
             # google / numpydoc force a zero-value default onto every entry after the first defaulted one (P61's
@@ -215,9 +231,6 @@ def oracle(case):
         any_taint = set().union(*taints.values()) if taints else set()
         if not applicable(fmt, case):
             r.label("n/a:" + fmt)
-            continue
-        if fmt.startswith("sqlalchemy") and sql_unmapped(case) and is_open("P29"):
-            r.covered("P29")  # column of unmapped type -> param entry with the key None, drifts every round
             continue
         if fmt in ("doc_google", "doc_numpydoc") and case["returns"] is not None and not case["params"] and is_open("P22"):
             r.covered("P22")
@@ -264,6 +277,7 @@ def oracle(case):
                     r.fail("not-fixpoint[%s]%s" % (fmt, bad[0]), "[%s] round %d: %s" % (fmt, rnd, bad[1]))
                 break
             cur = nxt
+    case = full_case
     r.label(*case["feats"])
     r.label(*gen_ir.labels_of(case))
     r.label("tainted-params=%d" % sum(bool(param_taints(p)) for _n, p in case["params"]))
